@@ -234,6 +234,53 @@ def u_histfit_model(root):
     return eng
 
 
+def u_new_model(root):
+    """HistFit._set_new_parametric_model (run for every data assignment): a NEW parametric model is built from the binning of the container now in the fit -
+    its size, range AND bin edges - with the fit's own density / bin-evaluation settings and its current parameter values; and the wrapper hands `density` on (shared with C14)"""
+    from . import c03
+    Part, Val, Fn = c03.Part, c03.Val, c03.Fn
+    eng = engine(root, ["kafe2/fit/histogram/fit.py", "kafe2/fit/_base/fit.py"], {"FitBase": {"_data_container": PYOBJ, "_param_model": PYOBJ, "_model_function": PYOBJ, "_bin_evaluation": PYOBJ, "_density": PYOBJ}}, [])
+    mk(eng, "FitBase", "parameter_values", "getter", result=lambda vw: Val("fit.parameter_values"))
+
+    def ctor(e, st, a, kw, node):
+        st.ghost = dict(st.ghost)
+        st.ghost["made"] = st.ghost.get("made", ()) + ((tuple(a), dict(kw)),)
+        return Val("new_model")
+    eng.consts = {"HistParametricModel": Fn(lambda e, st, a, kw: ctor(e, st, a, kw, None))}
+    for had_model in (True, False):
+        c = Contract("HistFit", "_set_new_parametric_model")
+
+        def init(e, st, me_, had_model=had_model):
+            e.write_field(st, me_, "_data_container", Part("container"))
+            e.write_field(st, me_, "_param_model", Part("old_model") if had_model else VNone())
+            e.write_field(st, me_, "_model_function", Val("fit.model_function"))
+            e.write_field(st, me_, "_bin_evaluation", Val("fit.bin_evaluation"))
+            e.write_field(st, me_, "_density", Val("fit.density"))
+            return {}
+
+        def post(vw):
+            made = vw.post.ghost.get("made", ())
+            tag = lambda v: getattr(v, "tag", None)
+            if len(made) != 1:
+                return [("exactly one new parametric model is built (the old one belongs to the old binning)", z3.BoolVal(False))]
+            a, kw = made[0]
+            allargs = dict(zip(("n_bins", "bin_range", "model_density_func", "model_parameters", "bin_edges"), a), **kw)
+            pm = vw.f(vw.post, vw.self, "_param_model")
+            return [("exactly one new parametric model is built (the old one belongs to the old binning)", z3.BoolVal(True)),
+                    ("from the container now in the fit: its size, its range and its bin EDGES", z3.BoolVal([tag(allargs.get(k_)) for k_ in ("n_bins", "bin_range", "bin_edges")] == ["container.size", "container.bin_range", "container.bin_edges"])),
+                    ("with the fit's model function and current parameter values", z3.BoolVal(tag(allargs.get("model_density_func")) == "fit.model_function" and tag(allargs.get("model_parameters")) == "fit.parameter_values")),
+                    ("with the fit's own density and bin-evaluation settings", z3.BoolVal(tag(allargs.get("density")) == "fit.density" and tag(allargs.get("bin_evaluation")) == "fit.bin_evaluation")),
+                    ("and it is the model the fit uses from now on", z3.BoolVal(tag(pm) == "new_model"))]
+        c.ensures.append(post)
+        eng.verify("HistFit", "_set_new_parametric_model", None, init, contract=c, tag=f"[{'replacing a model' if had_model else 'first model'}]")
+    return eng
+
+
+def _shared_wrapper(root):
+    from . import c14
+    return c14.u_wrapper_toplevel(root)
+
+
 def u_lemmas(root):
     eng = mk_engine(root)
     c0, c1, c2, c3, c4, A, B_ = z3.Reals("c0 c1 c2 c3 c4 A B")
@@ -264,5 +311,6 @@ def u_lemmas(root):
 def units(root):
     us = [Unit("quadrature rules", u_rules), Unit("antiderivative", u_antiderivative), Unit("numerical", u_numerical)]
     us += [Unit(f"lazy recompute ({m})", lambda r, m=m: u_lazy(r, m)) for m in ("rectangle", "trapezoid", "simpson", "numerical", "antiderivative")]
-    us += [Unit("parameters setter", u_parameters_setter), Unit("eval_model_function_density", u_density_eval), Unit("HistFit.model", u_histfit_model), Unit("exactness lemmas", u_lemmas)]
+    us += [Unit("parameters setter", u_parameters_setter), Unit("eval_model_function_density", u_density_eval), Unit("HistFit.model", u_histfit_model), Unit("exactness lemmas", u_lemmas), Unit("HistFit builds a new parametric model for the binning of new data", u_new_model),
+           Unit("hist_fit hands the density flag and the binning on (wrapper construction, shared with C14)", _shared_wrapper)]
     return us
